@@ -188,6 +188,8 @@ def run(ctx):
                 tmeta.append((r, pname, "table_struct"))
                 tcases.append((12, [r["grammar"], pr["table"], r["stop"]]))
                 tmeta.append((r, pname, "table_progress"))
+                tcases.append((14, [r["grammar"], pr["table"]]))
+                tmeta.append((r, pname, "items_sound"))
             glr = pname.startswith("glr")
             det = pr["deterministic"] and pname.startswith("lr-det") and r["plain"]
             for w, res in pr["results"].items():
@@ -262,6 +264,21 @@ def run(ctx):
     st["lr_tables_validated"] = 0
     for (r, pname, what), o in zip(tmeta, common.model_run(tcases)):
         st["lr_tables_validated"] += 1
+        if what == "items_sound":
+            # hypothesis of C10_viable_prefix / C10_lr_error_at_first_offending_token: item sets justified
+            # from their kernels, shift/goto targets non-empty, S' has one production -- these hold for every
+            # table a correct construction builds; productivity of all nonterminals is a property of the
+            # grammar (where it fails the theorems do not apply, which is counted, not reported)
+            allok, closure, ne0, productive, uniq = o
+            st["items_sound_tables"] = st.get("items_sound_tables", 0) + (1 if allok == 1 else 0)
+            if productive != 1:
+                st["grammars_with_unproductive_nonterminals"] = st.get("grammars_with_unproductive_nonterminals", 0) + 1
+            if closure != 1 or ne0 != 1 or uniq != 1:
+                ctx.violation("items_sound fails on the impl's table of %s (closure/targets %d, state 0 items %d, "
+                              "single S' production %d): the hypothesis of C10_viable_prefix does not hold"
+                              % (pname, closure, ne0, uniq), {"grammar": r["gtext"], "parser": pname},
+                              no_input=True, key="items_sound")
+            continue
         if o != 1:
             ctx.violation("%s fails on the impl's table of %s: the hypothesis of C10_lr_no_crash does not hold"
                           % (what, pname), {"grammar": r["gtext"], "parser": pname}, no_input=True, key=what)
